@@ -144,19 +144,23 @@ class SignAuthorized(Contract):
         """first APDU of the exchange: path and input index"""
         return (len(g.log) > len(old.g.log)
                 and g.log[len(old.g.log)] == apdu_of(CMD_SIGN, bytes([OP_PATH]) + pathbin(key_id) + le_bytes(input_index, 4)))
-    def streams_are_prefixes(btc_tx, sighash_computation_mode, witness_script, outpoint_value, rsk_tx_receipt,
-                             receipt_merkle_proof, g, old):
-        seg = sighash_computation_mode.netvalue == 1
-        if seg:
+    def tx_stream_is_prefix(btc_tx, sighash_computation_mode, witness_script, outpoint_value, g, old):
+        if sighash_computation_mode.netvalue == 1:
             payload = tx_payload(btc_tx, 1, True, witness_script, outpoint_value)
         else:
             payload = tx_payload(btc_tx, 0, False, "", 0)
-        n = len(receipt_merkle_proof)
-        return (prefix_of(sel(g.stream, KEY_TX)[len(sel(old.g.stream, KEY_TX)):], payload)
-                and prefix_of(sel(g.stream, KEY_RECEIPT)[len(sel(old.g.stream, KEY_RECEIPT)):], unhex(rsk_tx_receipt))
-                and implies(n <= 255,
-                            prefix_of(sel(g.stream, KEY_MERKLE)[len(sel(old.g.stream, KEY_MERKLE)):],
-                                      bytes([n]) + flat(receipt_merkle_proof, n))))
+        n = len(sel(g.stream, KEY_TX)) - len(sel(old.g.stream, KEY_TX))
+        return 0 <= n and n <= len(payload) and sel(g.stream, KEY_TX) == sel(old.g.stream, KEY_TX) + payload[0:n]
+    def receipt_stream_is_prefix(rsk_tx_receipt, g, old):
+        n = len(sel(g.stream, KEY_RECEIPT)) - len(sel(old.g.stream, KEY_RECEIPT))
+        return (0 <= n and n <= len(unhex(rsk_tx_receipt))
+                and sel(g.stream, KEY_RECEIPT) == sel(old.g.stream, KEY_RECEIPT) + unhex(rsk_tx_receipt)[0:n])
+    def merkle_stream_is_prefix(receipt_merkle_proof, g, old):
+        k = len(receipt_merkle_proof)
+        mp = bytes([k]) + flat(receipt_merkle_proof, k)
+        n = len(sel(g.stream, KEY_MERKLE)) - len(sel(old.g.stream, KEY_MERKLE))
+        return (0 <= n and implies(k > 255, n == 0)
+                and implies(k <= 255, n <= len(mp) and sel(g.stream, KEY_MERKLE) == sel(old.g.stream, KEY_MERKLE) + mp[0:n]))
     def success(result, btc_tx, sighash_computation_mode, witness_script, outpoint_value, rsk_tx_receipt,
                 receipt_merkle_proof, g, old):
         if result[0]:
@@ -182,7 +186,7 @@ class SignAuthorized(Contract):
                     and implies(classify(g) == K_ERR and sign_named(True, g.last_op, g.last_sw) == -102, c == -2)
                     and implies(classify(g) == K_ERR and sign_named(True, g.last_op, g.last_sw) == -101, c == -3 or c == -4))
         return True
-    ensures = [first_message, streams_are_prefixes, success, failure_codes]
+    ensures = [first_message, tx_stream_is_prefix, receipt_stream_is_prefix, merkle_stream_is_prefix, success, failure_codes]
 
     def x_at_least_one(g, old): return g.nx >= old.g.nx + 1
     raises = PROPAGATE(x_at_least_one, skip=[ERR_RESULT])
